@@ -1225,7 +1225,7 @@ impl<
                             Err(_) => return,
                             Ok((shard_index, (shard, mut data))) => {
                                 if shard.is_empty() {
-                                    return;
+                                    continue;
                                 }
 
                                 main_pl.info(format_args!(
